@@ -71,3 +71,44 @@ package core
 //@   assert-call Clone: true
 //@   ensures [validation-failure-returns-nothing] result1 != nil ==> result0 == nil
 //@   ensures [success-returns-the-validated-clone] result1 == nil ==> result0 == resultof(Clone) && called(Validate) == 1 && resultof(Validate) == nil
+
+// C18: the reader table of a path. Invariant (assumed on entry of every handler that is called from the path's own
+// loop, re-established on exit): a non-zero maxReaders bounds the number of readers. Readers are inserted only by
+// addReaderPost (mechanical side condition, checked on every run); an author that is already attached is not
+// counted twice; when the stream becomes unavailable the table is emptied.
+
+//@ func (pa *path) addReaderPost
+//@   property C18
+//@   safety -all
+//@   requires [limit-holds] pa.conf != nil && (pa.conf.MaxReaders == 0 || len(pa.readers) <= pa.conf.MaxReaders)
+//@   ensures [limit-preserved] pa.conf == old(pa.conf) && pa.conf.MaxReaders == old(pa.conf.MaxReaders) && (pa.conf.MaxReaders == 0 || len(pa.readers) <= pa.conf.MaxReaders)
+//@   ensures [not-counted-twice] old(has(pa.readers, req.Author)) ==> len(pa.readers) == old(len(pa.readers))
+//@   ensures [at-most-one-more] len(pa.readers) <= old(len(pa.readers)) + 1 && len(pa.readers) >= old(len(pa.readers))
+//@   ensures [same-table] pa.readers == old(pa.readers)
+
+//@ func (pa *path) consumeOnHoldRequests
+//@   property C18
+//@   safety -all
+//@   requires [limit-holds] pa.conf != nil && (pa.conf.MaxReaders == 0 || len(pa.readers) <= pa.conf.MaxReaders)
+//@   loop 2 invariant pa.conf == old(pa.conf) && pa.conf.MaxReaders == old(pa.conf.MaxReaders) && pa.readers == old(pa.readers) && (pa.conf.MaxReaders == 0 || len(pa.readers) <= pa.conf.MaxReaders)
+//@   ensures [limit-preserved] pa.conf == old(pa.conf) && (pa.conf.MaxReaders == 0 || len(pa.readers) <= pa.conf.MaxReaders)
+
+//@ func (pa *path) doAddReader
+//@   property C18
+//@   safety -all
+//@   requires [limit-holds] pa.conf != nil && (pa.conf.MaxReaders == 0 || len(pa.readers) <= pa.conf.MaxReaders)
+//@   ensures [limit-preserved] pa.conf.MaxReaders == 0 || len(pa.readers) <= pa.conf.MaxReaders
+
+//@ func (pa *path) doRemoveReader
+//@   property C18
+//@   safety -all
+//@   requires [limit-holds] pa.conf != nil && (pa.conf.MaxReaders == 0 || len(pa.readers) <= pa.conf.MaxReaders)
+//@   ensures [limit-preserved] pa.conf.MaxReaders == 0 || len(pa.readers) <= pa.conf.MaxReaders
+//@   ensures [reader-detached] !has(pa.readers, req.Author)
+
+//@ func (pa *path) setNotAvailable
+//@   property C18
+//@   safety -all
+//@   loop 1 invariant forall(r, defs.Reader, visited(pa.readers, r) ==> !has(pa.readers, r))
+//@   assert-call onUnavailableHook: forall(r, defs.Reader, !has(pa.readers, r))
+//@   ensures [unavailable-hook-fires-after-all-readers-are-detached] called(onUnavailableHook) == 1
